@@ -271,19 +271,46 @@ class Subst(ast.NodeTransformer):
         return n
 
 
+class _Silent:
+    """stand-in for a unit when a function is normalised on its own (digests)."""
+    qual = '?'
+    cls = None
+
+    def loc(self, node=None):
+        return '?'
+
+
 def body_hash(fn):
-    """digest of what a function does, insensitive to its own name, to the names of its positional parameters, to its
-    docstring and to its log statements (a renamed method usually has its log prefixes renamed too)."""
+    """digest of what a function does, computed on its canonical form (the function-local rewritings of this module) and
+    insensitive to its own name, to the names of its positional parameters and of its locals, to its docstring and to
+    its log statements (a renamed method usually has its log prefixes renamed too)."""
     import hashlib
+    fn = copy.deepcopy(fn)
+    C = Canonicaliser.__new__(Canonicaliser)
+    C.log = []
+    try:
+        C.local_passes(_Silent(), fn)
+    except Exception:
+        pass
+    # one spelling for a trailing `if c: BODY` of a procedure and the guard clause `if not c: return` + BODY
+    if not any(isinstance(x, ast.Return) and x.value is not None for x in own_nodes(fn)):
+        while fn.body and isinstance(fn.body[-1], ast.If) and not fn.body[-1].orelse:
+            last = fn.body[-1]
+            t = last.test
+            neg = t.operand if isinstance(t, ast.UnaryOp) and isinstance(t.op, ast.Not) else ast.UnaryOp(op=ast.Not(), operand=t)
+            fn.body = fn.body[:-1] + [ast.If(test=neg, body=[ast.Return(value=None)], orelse=[])] + last.body
+        if fn.body and isinstance(fn.body[-1], ast.Return):
+            fn.body = fn.body[:-1] or [ast.Pass()]
     params = [a.arg for a in fn.args.posonlyargs + fn.args.args]
     idx = {p: '$p%d' % i for i, p in enumerate(params)}
-    body = []
-    for st in strip_doc(fn.body):
-        if isinstance(st, ast.Expr) and isinstance(st.value, ast.Call) and \
-                'logger' in ast.unparse(st.value.func).split('.'):
-            continue
-        body.append(st)
-    mod = copy.deepcopy(ast.Module(body=body, type_ignores=[]))
+    # locals by order of first binding
+    order = []
+    for n in sorted((x for x in ast.walk(fn) if isinstance(x, ast.Name) and isinstance(x.ctx, ast.Store)),
+                    key=lambda x: (getattr(x, 'lineno', 0), getattr(x, 'col_offset', 0))):
+        if n.id not in idx and n.id not in order:
+            order.append(n.id)
+    for i, k in enumerate(order):
+        idx[k] = '$l%d' % i
 
     def logless(stmts):
         out = []
@@ -296,7 +323,7 @@ def body_hash(fn):
                     setattr(owner, f, logless(getattr(owner, f)) or [ast.Pass()])
             out.append(st)
         return out
-    mod.body = logless(mod.body)
+    mod = ast.Module(body=logless(strip_doc(fn.body)), type_ignores=[])
     for n in ast.walk(mod):
         if isinstance(n, ast.Name) and n.id in idx:
             n.id = idx[n.id]
@@ -304,6 +331,8 @@ def body_hash(fn):
             n.id = '$self'
         elif isinstance(n, ast.Attribute) and n.attr == fn.name:
             n.attr = '$self'
+        elif isinstance(n, ast.ExceptHandler) and n.name in idx:
+            n.name = idx[n.name]
     return hashlib.sha1((str(len(params)) + ast.dump(mod)).encode()).hexdigest()[:16]
 
 
@@ -425,7 +454,8 @@ class Canonicaliser:
             if not is_call or f.id not in self.new_callables:
                 return None
             r = P.lookup(unit.mod, f.id)
-            if r and r[0] == 'func' and (r[1].mod.short + ':' + f.id) not in self.pinned and self._eligible(r[1]):
+            if r and r[0] == 'func' and (r[1].mod.short + ':' + f.id) not in self.pinned and self._eligible(r[1]) \
+                    and not (r[1].mod.short in getattr(self, 'skip_owners', ()) and self._calls_new(r[1])):
                 return r[1], None
             return None
         if not isinstance(f, ast.Attribute) or f.attr not in self.new_callables:
@@ -456,6 +486,8 @@ class Canonicaliser:
         kind, owner, u = mem
         if owner.name + '.' + name in self.pinned or not self._eligible(u):
             return None
+        if owner.name in getattr(self, 'skip_owners', ()) and self._calls_new(u):
+            return None         # may still turn out to be a renamed reference method once its own helpers are folded
         if (kind == 'prop') == is_call:
             return None
         decs = [ast.unparse(d) for d in u.node.decorator_list]
@@ -1221,6 +1253,20 @@ class Canonicaliser:
         fn.body = do_list(fn.body)
 
     # ---------------------------------------------------------------- driver
+    def local_passes(self, u, fn):
+        """the rewritings that only look at one function."""
+        self.sink_into_branches(u, fn)
+        self.bulk_removals(u, fn)
+        self.or_defaults(u, fn)
+        self.aliases(u, fn)
+        self.loops(u, fn)
+        self.fold_conditions(u, fn)
+        self.split_exits(u, fn)
+        self.unnest_else(u, fn)
+        self.order_compares(u, fn)
+        self.discards(u, fn)
+        self.merge_ifs(u, fn)
+
     def run(self):
         P = self.P
         units = [u for u in P.all_units(with_closures=False)]
@@ -1235,17 +1281,7 @@ class Canonicaliser:
         self.constants()
         for u in units:
             self.dispatch(u, u.node)
-            self.sink_into_branches(u, u.node)
-            self.bulk_removals(u, u.node)
-            self.or_defaults(u, u.node)
-            self.aliases(u, u.node)
-            self.loops(u, u.node)
-            self.fold_conditions(u, u.node)
-            self.split_exits(u, u.node)
-            self.unnest_else(u, u.node)
-            self.order_compares(u, u.node)
-            self.discards(u, u.node)
-            self.merge_ifs(u, u.node)
+            self.local_passes(u, u.node)
         self.drop_absorbed()
         for u in units:
             self.rename_back(u, u.node)
@@ -1575,17 +1611,63 @@ class Canonicaliser:
                         cur[c.name + '.' + k] = (u, c.name)
             for k, u in m.funcs.items():
                 cur[m.short + ':' + k] = (u, m.short)
+        import difflib
         out = {}
+        groups = {}
         for q, (h, params) in pinned_bodies.items():
             if q in cur:
                 continue
             owner = q.split(':')[0] if ':' in q else q.split('.')[0]
-            sep = ':' if ':' in q else '.'
-            cands = [k for k, (u, o) in cur.items() if o == owner and (sep in k) and k not in pinned
-                     and k not in pinned_bodies and body_hash(u.node) == h]
-            if len(cands) == 1:
-                out[cands[0]] = q
+            groups.setdefault((owner, ':' if ':' in q else '.', h), []).append(q)
+        hashes = {}
+        for (owner, sep, h), missing in groups.items():
+            cands = []
+            for k, (u, o) in cur.items():
+                if o == owner and sep in k and k not in pinned and k not in pinned_bodies:
+                    if k not in hashes:
+                        hashes[k] = body_hash(u.node)
+                    if hashes[k] == h:
+                        cands.append(k)
+            if len(cands) != len(missing):
+                continue
+            # several methods of one class with the same body (e.g. empty hooks): paired by name resemblance
+            pairs = sorted(((difflib.SequenceMatcher(None, c, m).ratio(), c, m) for c in cands for m in missing), reverse=True)
+            used_c, used_m = set(), set()
+            for r, c, m in pairs:
+                if c not in used_c and m not in used_m:
+                    out[c] = m
+                    used_c.add(c)
+                    used_m.add(m)
         return out
+
+    def _calls_new(self, u):
+        for n in own_nodes(u.node):
+            if isinstance(n, ast.Attribute) and n.attr in self.new_callables and n.attr != u.node.name:
+                return True
+            if isinstance(n, ast.Name) and n.id in self.new_callables and n.id != u.node.name:
+                return True
+        return False
+
+    def owners_with_missing_functions(self):
+        """classes / modules where a method / function of the reference decomposition is absent: a function unknown to
+        the reference found there may be that one under another name, so it is not folded as a new helper yet."""
+        P = self.P
+        cur = set()
+        for m in P.mods.values():
+            for c in m.classes.values():
+                cur |= {c.name + '.' + k for k in list(c.methods) + list(c.props)}
+            cur |= {m.short + ':' + k for k in m.funcs}
+        return {q.split(':')[0] if ':' in q else q.split('.')[0] for q in self.pinned_bodies if q not in cur}
+
+    def fold_new_helpers(self, skip_owners=()):
+        self.skip_owners = set(skip_owners)
+        ch = False
+        for u in self.P.all_units(with_closures=False):
+            ch |= self.inline_statements(u, u.node)
+            ch |= self.inline_expressions(u, u.node)
+        self.drop_absorbed()
+        self.skip_owners = set()
+        return ch
 
     def rename_back_symbols(self):
         P = self.P
@@ -1682,8 +1764,18 @@ def canonical_program(root):
     from .model import Program
     P0 = Program(root)
     C = Canonicaliser(P0)
-    if C.rename_back_symbols():
-        # the model is rebuilt on the renamed trees before the other passes (they resolve names through it)
+    for _ in range(10):
+        # (a renamed method that calls another renamed method only matches once the latter has its name back; one
+        # that calls a helper extracted from it only matches once that helper is folded back)
+        changed = C.rename_back_symbols()
+        if not changed:
+            owners = C.owners_with_missing_functions()
+            if not owners:
+                break
+            changed = C.fold_new_helpers(skip_owners=owners)
+            if not changed:
+                break
+        # the model is rebuilt on the rewritten trees before going on (names are resolved through it)
         log = C.log
         P0 = Program(root, trees={name: m.tree for name, m in P0.mods.items()})
         C = Canonicaliser(P0)
